@@ -87,6 +87,19 @@ def interpolate (c r l : List Pt) (ℓ : List Rat) (s : Rat) : Res Interp :=
         | _, _, _, _, _, _ => .error .index
       | _, _ => .error .index
 
+/-! ### the side condition that ties the length parameters to the points -/
+
+/-- Squared Euclidean distance. -/
+def distSq (a b : Pt) : Rat := (b.1 - a.1) * (b.1 - a.1) + (b.2 - a.2) * (b.2 - a.2)
+
+/-- `ℓ` is the list of Euclidean segment lengths of the polyline `c`: one non-negative entry per segment whose square
+    is the squared distance of the segment's end points (i.e. `ℓᵢ = sqrt(|cᵢ₊₁ − cᵢ|²)`, lanelet.py:364).
+    Decidable, so the harness checks it on every grid polyline for the lengths numpy computed (driver op `euclid`). -/
+def isEuclid : List Pt → List Rat → Bool
+  | a :: b :: t, x :: xs => decide (0 ≤ x) && decide (x * x = distSq a b) && isEuclid (b :: t) xs
+  | [_], [] => true
+  | _, _ => false
+
 /-! ### merge_lanelets -/
 
 structure Lanelet where
